@@ -70,7 +70,7 @@ class C13(Prop):
         add([v, hh, hi, v], 3, 0.5, ['all'])
         add([v, v, hh], 2, 0.5, ['all'])
         add([v, hi, v, v], 2, 0.5, rng.choice([['close', 2], ['raise', 2]]))
-        n = 0 if tier == 'quick' else 184
+        n = 40 if tier == 'quick' else 280
         weights = [v] * 5 + ['bare', 'playerRaises', 'exit', 'exit', 'hang', 'hangTermIgnored', 'hangTermHandled', 'late']
         for _ in range(n):
             m = rng.randint(2, 8)
@@ -128,6 +128,8 @@ class C13(Prop):
                     % (tr['overdue'], beh[ids[tr['overdue']]]['k'] if tr['overdue'] < len(ids) else '-',
                        polls + kd + 10, case['timeout'])]
         got = tr['comparisons']
+        if tr.get('close_error'):
+            fails.append('closing the abandoned comparison generator failed, the run did not unwind: %s' % tr['close_error'])
         if len(got) != n:
             fails.append('%d comparisons arrived, the consumer asked for %d' % (len(got), n))
         for pos, (c, dt) in enumerate(zip(got, tr['dt'])):
